@@ -154,6 +154,9 @@ impl Context {
     pub fn replace_all(&self, s: &str) -> String {
         let mut res = String::from(s);
         let mut changed;
+        // A macro that (directly or not) refers to itself would be replaced for ever:
+        // the number of rounds and the size of the result are bounded
+        let mut rounds = 0;
         loop {
             changed = false;
             for (i, set) in self.regex_sets.iter().enumerate() {
@@ -170,7 +173,8 @@ impl Context {
                     }
                 }
             }
-            if !changed {
+            rounds += 1;
+            if !changed || rounds >= 100 || res.len() > 65536 {
                 break;
             }
         }
